@@ -309,8 +309,11 @@ namespace vf
         o << "\"nontrivial_hashes\":[";
         {
             bool first = true;
+            size_t listed = 0;
             for (auto h : s.distinct_nontrivial)
             {
+                if (++listed > 200000)
+                    break; // the driver counts the union of the listed hashes: a lower bound
                 if (!first)
                     o << ',';
                 first = false;
